@@ -476,8 +476,10 @@ func TestC37(t *testing.T) {
 			"whole pool content after every step compared with a map model; (conc) 2..8 goroutines each looping 1..32 times over 2..8 generated operations (history <= ~400 events) with generated "+
 			"scheduling noise on one pool holding 1..5 ids, GOMAXPROCS in {2,6,9}, a barrier before every 1st/2nd/4th/8th pass, call/return history stamped by one atomic counter and checked for "+
 			"linearizability (porcupine) against the same model, pool content at quiescence included; schedules are those the Go scheduler produced "+
-			"(sampled, not enumerated). non-trivial: (seq) a duplicate add was rejected and a get/unverified query met both valid and outdated "+
+			"(sampled, not enumerated); (cap, 1 case in 32) the real TXPoolServer + tx actor + workers over a real ledger, pool pre-filled to "+
+			"MAX_CAPACITY-0..3, 1..6 submissions (new / duplicate of pool / duplicate of pending / outsider) through the tx actor while gated validators "+
+			"hold their answers, then verification completes. non-trivial: (seq) a duplicate add was rejected and a get/unverified query met both valid and outdated "+
 			"entries; (conc) at least one pair of operations of different goroutines really overlapped in time with a mutating operation among "+
-			"them; distinct by JSON encoding of the case",
+			"them; (cap) a submission met the pool at capacity or was admitted while pool+pending exceeded it; distinct by JSON encoding of the case",
 		genC37, runC37)
 }
